@@ -24,7 +24,9 @@ type asConfig struct {
 	Decision   map[string]string `json:"decision"`
 	Strategy   map[string]string `json:"strategy"`
 	LaunchFail []string          `json:"launchFail"`
-	HookFail   []string          `json:"hookFail"` // [actor, hook]
+	// RelaunchFail: actors whose OnLaunch fails the first time it runs after a restart (a double fault)
+	RelaunchFail []string `json:"relaunchFail,omitempty"`
+	HookFail     []string `json:"hookFail"` // [actor, hook]
 	// the following are used by random / directed scenarios only (not part of the TLC model)
 	HookFailMode       string              `json:"hookFailMode,omitempty"`       // "" = the hook returns an error, "panic" = it panics
 	FailMode           string              `json:"failMode,omitempty"`           // "" = handlers report failures with ctx.Failed, "panic" = they panic
@@ -82,19 +84,20 @@ type asExec struct {
 	sys *actor.System
 	c   *ctl.Ctl
 
-	mu       sync.Mutex
-	events   []map[string]any
-	nextID   int
-	refs     map[string]vivid.ActorRef
-	mbox     map[string]*mailbox.UnboundedMailbox
-	restarts map[string]int    // completed OnRestarted hooks per actor
-	inst     map[string]int    // instance counter per actor (provider)
-	paths    map[string]string // path -> name
-	gated    map[*mailbox.UnboundedMailbox]string
-	sysOf    map[*mailbox.UnboundedMailbox]bool
-	stuck    string
-	held     map[string]vivid.ActorRef
-	consults map[string]int
+	mu             sync.Mutex
+	events         []map[string]any
+	nextID         int
+	refs           map[string]vivid.ActorRef
+	mbox           map[string]*mailbox.UnboundedMailbox
+	restarts       map[string]int    // completed OnRestarted hooks per actor
+	relaunchFailed map[string]bool   // the scripted launch failure after a restart has happened
+	inst           map[string]int    // instance counter per actor (provider)
+	paths          map[string]string // path -> name
+	gated          map[*mailbox.UnboundedMailbox]string
+	sysOf          map[*mailbox.UnboundedMailbox]bool
+	stuck          string
+	held           map[string]vivid.ActorRef
+	consults       map[string]int
 }
 
 func (x *asExec) ev(e map[string]any) {
@@ -251,9 +254,18 @@ func (a *scriptActor) handle(ctx vivid.ActorContext, depth int) {
 		a.spawnChildren(ctx)
 		x.mu.Lock()
 		first := x.restarts[a.name] == 0
+		again := x.restarts[a.name] == 1 && !x.relaunchFailed[a.name] && a.has(x.sc.Cfg.RelaunchFail)
+		if again {
+			x.relaunchFailed[a.name] = true
+		}
 		x.mu.Unlock()
+		if again {
+			x.ev(map[string]any{"e": "Fail", "a": a.name, "k": "launch", "v": b2i(a.gotKill)})
+			a.failNow(ctx, "launch failure after a restart")
+			return
+		}
 		if first && a.has(x.sc.Cfg.LaunchFail) {
-			x.ev(map[string]any{"e": "Fail", "a": a.name, "k": "launch"})
+			x.ev(map[string]any{"e": "Fail", "a": a.name, "k": "launch", "v": b2i(a.gotKill)})
 			a.failNow(ctx, "launch failure")
 		}
 	case *vivid.OnKill:
@@ -304,7 +316,7 @@ func (a *scriptActor) doOp(ctx vivid.ActorContext, m umsg) {
 	switch m.Op {
 	case "nop", "probe":
 	case "fail":
-		x.ev(map[string]any{"e": "Fail", "a": a.name, "k": "user", "m": m.ID})
+		x.ev(map[string]any{"e": "Fail", "a": a.name, "k": "user", "m": m.ID, "v": b2i(a.gotKill)})
 		a.failNow(ctx, "user failure")
 	case "become", "become!":
 		// "become" stacks the new behaviour on top, "become!" discards what is below it; the event carries the label of
@@ -528,7 +540,7 @@ func (o *observer) OnReceive(ctx vivid.ActorContext) {
 func newASExec(sc *asScenario) (*asExec, error) {
 	installDispatch()
 	x := &asExec{sc: sc, nextID: 1, refs: map[string]vivid.ActorRef{}, mbox: map[string]*mailbox.UnboundedMailbox{},
-		restarts: map[string]int{}, inst: map[string]int{}, paths: map[string]string{},
+		restarts: map[string]int{}, relaunchFailed: map[string]bool{}, inst: map[string]int{}, paths: map[string]string{},
 		gated: map[*mailbox.UnboundedMailbox]string{}, sysOf: map[*mailbox.UnboundedMailbox]bool{}, consults: map[string]int{}}
 	x.sys = actor.NewSystem(vivid.WithActorSystemContext(context.Background()), vivid.WithActorSystemLogger(silentLogger),
 		vivid.WithActorSystemStopTimeout(3*time.Second))
